@@ -13,7 +13,7 @@ use crate::exec::{paused_runtime, take_panics};
 use crate::net::{new_pipe, Pipe, SimListener, SimSocket};
 use crate::rtrcodec::{self as wire, WirePdu};
 use crate::scenario::{RunKind, Scenario, Tier};
-use crate::source::{to_wire, CallKind, Key, SourceCall, StateKey, Universe, VersionedSource};
+use crate::source::{to_wire, CallKind, SourceCall, StateKey, Universe, VersionedSource};
 use crate::tape::Tape;
 
 pub struct C08;
@@ -759,7 +759,7 @@ impl Scenario for C08 {
     }
 
     fn random_runs(&self, tier: Tier) -> u64 {
-        match tier { Tier::Quick => 300_000, Tier::Thorough => 20_000_000 }
+        match tier { Tier::Quick => 2_000_000, Tier::Thorough => 100_000_000 }
     }
 
     fn run(&self, kind: RunKind, tape: Tape, log: bool) -> (RunOut, Tape) {
